@@ -216,6 +216,19 @@ impl BTreeTable {
 		}
 	}
 
+	/// Verification hook: raw structural dump (value tables and the tree header).
+	#[cfg(parity_db_verif)]
+	pub fn verif_dump(&self, log: &impl LogQuery) -> Result<crate::verif::ColumnDump> {
+		let tables = self.tables.read();
+		let mut d = crate::verif::ColumnDump::default();
+		for t in tables.iter() {
+			d.tables.push(t.verif_dump()?);
+		}
+		let header = Self::btree_header(log, self.locked(&tables))?;
+		d.btree = Some((header.root.as_u64(), header.depth));
+		Ok(d)
+	}
+
 	fn locked<'a>(&'a self, tables: &'a [ValueTable]) -> TablesRef<'a> {
 		TablesRef {
 			tables,
